@@ -202,10 +202,10 @@ Definition moved (s : cstate) : cstate := mkC (S (ver s)) (t_e s) (t_g s) (t_h s
 Definition changed (s : cstate) : cstate := moved (cleared s).
 Definition tag (s : cstate) (b : bool) : option nat := if b then Some (ver s) else None.
 (* the primitive in-place step `iadd`:
-     CartesianCoordinates.iadd = np.ndarray.__iadd__(self, value)   cartesian.py:79-80  (NO clear_tensors)
+     CartesianCoordinates.iadd = self.clear_tensors(); np.ndarray.__iadd__(self, value)   cartesian.py:79-81
      DIC.iadd ends with  self[:] = s_k  -> __setitem__               dic.py:294 (converged and fallback branch alike) *)
 Definition raw_iadd (k : ckind) (s : cstate) : cstate :=
-  match k with KCart => moved s | KDic => changed s end.
+  match k with KCart => moved (cleared s) | KDic => changed s end.
 (* base.py:405-407  new = self.copy(); new.clear_tensors(); new.iadd(other) — composed, not postulated *)
 Definition cadd (k : ckind) (s : cstate) : cstate := raw_iadd k (cleared s).
 
@@ -232,9 +232,6 @@ Definition crun (k : ckind) (s : cstate) (ops : list cop) : cstate := fold_left 
 (* the coordinate changes made through the operators of OptCoordinates *)
 Definition is_change (o : cop) : bool :=
   match o with OSetItem | OAdd | OSub | OIAdd | OISub => true | _ => false end.
-(* operations after which freshness is preserved: everything except a direct Cartesian iadd call *)
-Definition keeps_fresh (k : ckind) (o : cop) : bool :=
-  match k, o with KCart, OIaddCall => false | _, _ => true end.
 (* what the public getter `c.h` returns (base.py:108-130) *)
 Definition obs_h (s : cstate) : option nat :=
   match t_h s with Some t => Some t | None => t_hinv s end.
